@@ -19,12 +19,12 @@ exit 0 held / 1 VIOLATION / 2 harness error
 import gc
 import hashlib
 import json
-import os
+import os  # noqa: E402
 import subprocess
 import sys
 import time
 
-VERIF = "/verif"
+VERIF = os.environ.get("VERIF_DIR", "/verif")
 PYWHEEL = VERIF + "/target/pywheel"
 DEFAULT_SEED = 20260921
 MASK = (1 << 64) - 1
